@@ -79,6 +79,15 @@ Proof.
   intros b Hs. cbn [app]. rewrite E, (Hb b Hs). reflexivity.
 Qed.
 
+Lemma take_xy1_loc l pts l1 : take_xy1 l = Some (pts, l1) -> locP take_xy1 l pts l1.
+Proof.
+  unfold take_xy1. destruct l as [|r l]; [discriminate|]. destruct (8 <=? plen r) eqn:E8; [|discriminate].
+  unfold take_xy. destruct (is_rec 16 3 r && (plen r mod 8 =? 0)) eqn:E; [|discriminate].
+  destruct (take_xy_more l) as [pts' rest'] eqn:El. intros [= <- <-].
+  destruct (take_xy_more_loc _ _ _ El) as (pre & Hl & Hb). exists (r :: pre). split; [cbn [app]; rewrite <- Hl; reflexivity|].
+  intros b Hs. cbn [app]. rewrite E8, E, (Hb b Hs). reflexivity.
+Qed.
+
 (* properties: the stop is decided by the next record alone when that record is not a PROPATTR *)
 Lemma take_props_loc : forall l acc ps l1, take_props acc l = (ps, l1) ->
   (forall x tl, l1 = x :: tl -> rtype x <> 43) -> locT (take_props acc) l ps l1.
@@ -107,7 +116,7 @@ Qed.
 
 Lemma take_str_loc t l s tl : take_str t l = Some (s, tl) -> exists r, l = r :: tl /\ forall b, take_str t (r :: b) = Some (s, b).
 Proof.
-  unfold take_str. destruct l as [|r l0]; [discriminate|]. destruct (is_rec t 6 r) eqn:E; [|discriminate].
+  unfold take_str. destruct l as [|r l0]; [discriminate|]. destruct (is_rec t 6 r && no_nulb (strip_nul (payload r))) eqn:E; [|discriminate].
   intros [= <- <-]. exists r. split; [reflexivity|]. intros b. rewrite E. reflexivity.
 Qed.
 
@@ -164,7 +173,8 @@ Proof.
   destruct (opt1 15 3 4 l3) as [ow l4] eqn:H4.
   destruct (opt1 48 3 4 l4) as [ob l5] eqn:H5.
   destruct (opt1 49 3 4 l5) as [oe l6] eqn:H6.
-  destruct (take_xy l6) as [[pts l7]|] eqn:H7; [|discriminate].
+  destruct (width_ok ow) eqn:Hwok; [|discriminate].
+  destruct (take_xy1 l6) as [[pts l7]|] eqn:H7x; [|discriminate]. pose proof (take_xy1_some _ _ H7x) as H7.
   destruct (take_props [] l7) as [prs l8] eqn:H8.
   destruct (take_endel l8) as [l9|] eqn:H9; [|discriminate].
   intros [= <- <-].
@@ -172,7 +182,7 @@ Proof.
   destruct (take_endel_loc _ _ H9) as (r17 & -> & Ht17 & Hb9).
   destruct (opt1_loc _ _ _ _ _ _ H3) as (p3 & -> & Hb3). destruct (opt1_loc _ _ _ _ _ _ H4) as (p4 & -> & Hb4).
   destruct (opt1_loc _ _ _ _ _ _ H5) as (p5 & -> & Hb5). destruct (opt1_loc _ _ _ _ _ _ H6) as (p6 & -> & Hb6).
-  destruct (take_xy_loc _ _ _ H7) as (pxy & -> & Hb7).
+  destruct (take_xy1_loc _ _ _ H7x) as (pxy & -> & Hb7).
   destruct (take_props_loc _ _ _ _ H8 (endel_not_propattr _ _ Ht17)) as (pp & -> & Hb8).
   exists (pf ++ rl :: rt :: p3 ++ p4 ++ p5 ++ p6 ++ pxy ++ pp ++ [r17]). split; [rewrite Hl; norm_app; reflexivity|].
   split; [destruct pf; discriminate|]. intros b. norm_app.
@@ -184,7 +194,7 @@ Proof.
   assert (S5 : sh (p6 ++ pxy ++ pp ++ r17 :: b) (p6 ++ pxy ++ pp ++ r17 :: l9)) by (apply sh_app; exact S6).
   assert (S4 : sh (p5 ++ p6 ++ pxy ++ pp ++ r17 :: b) (p5 ++ p6 ++ pxy ++ pp ++ r17 :: l9)) by (apply sh_app; exact S5).
   assert (S3 : sh (p4 ++ p5 ++ p6 ++ pxy ++ pp ++ r17 :: b) (p4 ++ p5 ++ p6 ++ pxy ++ pp ++ r17 :: l9)) by (apply sh_app; exact S4).
-  rewrite (Hb3 _ S3), (Hb4 _ S4), (Hb5 _ S5), (Hb6 _ S6), (Hb7 _ S7), (Hb8 _ S8), Hb9. reflexivity.
+  rewrite (Hb3 _ S3), (Hb4 _ S4), (Hb5 _ S5), (Hb6 _ S6), Hwok, (Hb7 _ S7), (Hb8 _ S8), Hb9. reflexivity.
 Qed.
 
 Lemma spec_ref_local array l e rest : spec_ref array l = Some (e, rest) -> elocal (spec_ref array) l e rest.
@@ -195,6 +205,7 @@ Proof.
   destruct (take_str_loc _ _ _ _ H1) as (r18 & -> & Hb1).
   destruct array.
   - destruct (take1 19 2 4 l2) as [[rc l3]|] eqn:H3; [|discriminate].
+    destruct (colrow_ok rc) eqn:Hcr; [|discriminate].
     destruct (take1 16 3 24 l3) as [[rx l4]|] eqn:H4; [|discriminate].
     destruct (take_props [] l4) as [prs l5] eqn:H5.
     destruct (take_endel l5) as [l6|] eqn:H6; [|discriminate].
@@ -206,7 +217,7 @@ Proof.
     exists (pf ++ r18 :: ps ++ rc :: rx :: pp ++ [r17]). split; [rewrite Hl; norm_app; reflexivity|].
     split; [destruct pf; discriminate|]. intros b. norm_app.
     rewrite (Hbf (r18 :: ps ++ rc :: rx :: pp ++ r17 :: b) (sh_cons _ _ _)). rewrite Hb1.
-    rewrite (Hb2 (rc :: rx :: pp ++ r17 :: b) (sh_cons _ _ _)). rewrite Hb3, Hb4.
+    rewrite (Hb2 (rc :: rx :: pp ++ r17 :: b) (sh_cons _ _ _)). rewrite Hb3, Hcr, Hb4.
     rewrite (Hb5 (r17 :: b) (sh_cons _ _ _)). rewrite Hb6. reflexivity.
   - destruct (take1 16 3 8 l2) as [[rx l4]|] eqn:H4; [|discriminate].
     destruct (take_props [] l4) as [prs l5] eqn:H5.
@@ -231,6 +242,7 @@ Proof.
   destruct (opt1 23 1 2 l2) as [opr l3] eqn:H3.
   destruct (opt1 33 2 2 l3) as [o33 l4] eqn:H4.
   destruct (opt1 15 3 4 l4) as [o15 l5] eqn:H5.
+  destruct (width_ok o15) eqn:Hwok; [|discriminate].
   destruct (take_strans l5) as [[[refl mag] rot] l6] eqn:H6.
   destruct (take1 16 3 8 l6) as [[rx l7]|] eqn:H7; [|discriminate].
   destruct (take_str 25 l7) as [[tx l8]|] eqn:H8; [|discriminate].
@@ -251,7 +263,7 @@ Proof.
   assert (S5 : sh (ps ++ rx :: r25 :: pp ++ r17 :: b) (ps ++ rx :: r25 :: pp ++ r17 :: l10)) by (apply sh_app; exact S6).
   assert (S4 : sh (p5 ++ ps ++ rx :: r25 :: pp ++ r17 :: b) (p5 ++ ps ++ rx :: r25 :: pp ++ r17 :: l10)) by (apply sh_app; exact S5).
   assert (S3 : sh (p4 ++ p5 ++ ps ++ rx :: r25 :: pp ++ r17 :: b) (p4 ++ p5 ++ ps ++ rx :: r25 :: pp ++ r17 :: l10)) by (apply sh_app; exact S4).
-  rewrite (Hb3 _ S3), (Hb4 _ S4), (Hb5 _ S5), (Hb6 _ S6), Hb7, Hb8.
+  rewrite (Hb3 _ S3), (Hb4 _ S4), (Hb5 _ S5), Hwok, (Hb6 _ S6), Hb7, Hb8.
   rewrite (Hb9 (r17 :: b) (sh_cons _ _ _)). rewrite Hb10. reflexivity.
 Qed.
 
@@ -312,7 +324,7 @@ Proof.
   destruct (spec_elements_local _ _ _ _ He) as (pe & Hle & Hlen & Hbe).
   exists (ps ++ pe). split; [rewrite Hl1 at 1; rewrite Hle, app_assoc; reflexivity|].
   split; [discriminate|]. intros f b. cbn [app spec_structures]. rewrite E4, E5.
-  unfold take_str in Hn |- *. destruct (is_rec 6 6 r6) eqn:E6; [|discriminate]. injection Hn as <-.
+  unfold take_str in Hn |- *. destruct (is_rec 6 6 r6 && no_nulb (strip_nul (payload r6))) eqn:E6; [|discriminate]. injection Hn as <-.
   rewrite <- app_assoc.
   assert (Hs : sh (pe ++ b) (skip_strclass l1)).
   { rewrite Hle. unfold sh. destruct pe as [|x pe]; [cbn in Hlen; lia|reflexivity]. }
